@@ -8,8 +8,11 @@
       ([go_slice_to], [go_slice_from], [go_make]) that yield [Panic]; "decode never panics" is a theorem.
     - [steps] counts primitive reads (byt / uvarint; each loop iteration performs at least one);
       [alloc] counts requested elements: the clone of the input, every make(…, n) hint/len/cap, every append.
-    - roaring's Bitmap.FromBuffer is external: the decoders take it as a parameter [bm]. *)
-From ZV Require Import Lib.Base.
+    - roaring's Bitmap.FromBuffer is external: the decoders take it as a parameter [bm].
+    - the encoders exist twice: [enc_*] (pure: what is written) and [enc_*_chk cap] (outcome monad: every varint goes
+      through binary.PutUvarint into the scratch buffer `var enc [cap]byte`, whose index expressions are CHECKED writes);
+      the capacities are GENERATED from the source (Generated/CodecConsts.v, translator/c26consts). *)
+From ZV Require Import Lib.Base Generated.CodecConsts.
 Open Scope N_scope.
 
 Definition bytes := list N.
@@ -188,6 +191,58 @@ Definition drop_time (e : N * rentry) : N * rentry := let '(id, (hs, it, brs)) :
 Definition enc_br (l : list (bytes * bytes)) : bytes :=      (* (branch, serialised bitmap) *)
   1 :: put_uvarint (nlen l) ++ concat (map (fun p => enc_str (fst p) ++ enc_str (snd p)) l).
 
+(** ---- checked encoders: the varint scratch buffer is explicit.
+    binary.PutUvarint(buf, x):  i := 0; for x >= 0x80 { buf[i] = byte(x) | 0x80; x >>= 7; i++ }; buf[i] = byte(x); return i + 1
+    Each buf[i] is an index expression that panics when i >= len(buf); the encoders call it with buf = enc[:], the whole
+    of `var enc [cap]byte`, and then copy enc[:m] to the output (m <= cap: never out of range). [fuel] only makes the
+    recursion structural: 10 iterations exhaust a uint64; running out of fuel is reported as Panic 97, never hidden. *)
+Fixpoint put_uvarint_chk_f (fuel cap i : nat) (x : N) : outcome bytes :=
+  match fuel with
+  | O => Panic 97
+  | S f =>
+      if (cap <=? i)%nat then Panic 4                       (* index out of range [i] with length cap *)
+      else if x <? 128 then Ok [x]
+      else do r <- put_uvarint_chk_f f cap (S i) (x / 128); Ok ((x mod 128 + 128) :: r)
+  end.
+Definition put_uvarint_chk (cap : nat) (x : N) : outcome bytes := put_uvarint_chk_f 10 cap 0 x.
+
+Fixpoint cconcat {A} (f : A -> outcome bytes) (l : list A) : outcome bytes :=        (* the range loops of the encoders *)
+  match l with
+  | [] => Ok []
+  | x :: r => do a <- f x; do b <- cconcat f r; Ok (a ++ b)
+  end.
+Definition enc_str_chk (cap : nat) (s : bytes) : outcome bytes := do v <- put_uvarint_chk cap (nlen s); Ok (v ++ s).
+Definition enc_set_chk (cap : nat) (l : list bytes) : outcome bytes :=
+  do n <- put_uvarint_chk cap (nlen l); do body <- cconcat (enc_str_chk cap) l; Ok (1 :: n ++ body).
+Definition enc_branch_chk (cap : nat) (b : branch) : outcome bytes :=
+  do a <- enc_str_chk cap (fst b); do c <- enc_str_chk cap (snd b); Ok (a ++ c).
+Definition enc_entry_chk (cap : nat) (e : N * rentry) : outcome bytes :=
+  let '(id, (hs, it, brs)) := e in
+  do a <- put_uvarint_chk cap id;                             (* varint(int(repoID)) *)
+  do t <- put_uvarint_chk cap (of_int it);                    (* varint(int(entry.IndexTimeUnix)): uint64(n) of a possibly negative int *)
+  do n <- put_uvarint_chk cap (nlen brs);
+  do bs <- cconcat (enc_branch_chk cap) brs;
+  Ok (a ++ [if hs : bool then 1 else 0] ++ t ++ n ++ bs).
+Definition enc_repos_chk (cap : nat) (o : option (list (N * rentry))) : outcome bytes :=
+  match o with
+  | None => Ok []
+  | Some l =>
+      do n <- put_uvarint_chk cap (nlen l);
+      do ab <- put_uvarint_chk cap (N.of_nat (all_branches l));
+      do body <- cconcat (enc_entry_chk cap) l;
+      Ok (2 :: n ++ ab ++ body)
+  end.
+Definition enc_br_chk (cap : nat) (l : list (bytes * bytes)) : outcome bytes :=
+  do n <- put_uvarint_chk cap (nlen l);
+  do body <- cconcat (fun p => do a <- enc_str_chk cap (fst p); do c <- enc_str_chk cap (snd p); Ok (a ++ c)) l;
+  Ok (1 :: n ++ body).
+(** the encoders of the tree under test: capacities read from the source by translator/c26consts *)
+Definition enc_set_go := enc_set_chk stringset_enc_cap.
+Definition enc_repos_go := enc_repos_chk reposmap_enc_cap.
+Definition enc_br_go := enc_br_chk branchesrepos_enc_cap.
+Definition ok_bytes_eqb (o : outcome bytes) (b : bytes) : bool :=
+  match o with Ok e => list_eqb N.eqb e b | _ => false end.
+
 (** ---- map / set views (Go maps: later insertion wins; observation = sorted by key) *)
 Fixpoint bytes_cmp (a b : bytes) : comparison :=
   match a, b with
@@ -252,7 +307,10 @@ Definition bm_of_table (tbl : list (bytes * option (list N))) (blob : bytes) : o
     kind 0/1/2: decode of arbitrary bytes by stringSetDecode / reposMapDecode / branchesReposDecode;
     kind 10/11/12: [bytes] is what the Go ENCODER produced for the value [obs]: the model decoder must
     read it, the model encoder must reproduce exactly these bytes from the elements in the order read,
-    and the value must agree. *)
+    and the value must agree (the model encoder is the CHECKED one with the generated capacity: it must return Ok);
+    kind 20/21: the Go encoder (stringSetEncode / reposMapEncode) PANICKED on the value [obs]: the checked model encoder
+    must panic as well (never observed on the unchanged tree; keeps model and code tied on a tree whose scratch buffer
+    is too small). *)
 Definition c26case := (N * bytes * list (bytes * option (list N)) * option cval)%type.
 
 Definition c26_ok (c : c26case) : bool :=
@@ -262,22 +320,24 @@ Definition c26_ok (c : c26case) : bool :=
   | 1 => obs_eqb (omap (fun o => VRepos (option_map canon_map o)) (dec_repos b)) obs
   | 2 => obs_eqb (omap VBR (dec_br (bm_of_table tbl) b)) obs
   | 10 => match dec_set b, obs with
-          | Ok l, Some (VSet v) => bytes_eqb (enc_set l) b && list_eqb bytes_eqb (canon_set l) v
+          | Ok l, Some (VSet v) => ok_bytes_eqb (enc_set_go l) b && list_eqb bytes_eqb (canon_set l) v
                                    && Nat.eqb (length l) (length v)
           | _, _ => false
           end
   | 11 => match dec_repos b, obs with
-          | Ok None, Some (VRepos None) => bytes_eqb (enc_repos None) b
+          | Ok None, Some (VRepos None) => ok_bytes_eqb (enc_repos_go None) b
           | Ok (Some l), Some (VRepos (Some v)) =>
-              bytes_eqb (enc_repos (Some l)) b && list_eqb kv_eqb (canon_map l) v && Nat.eqb (length l) (length v)
+              ok_bytes_eqb (enc_repos_go (Some l)) b && list_eqb kv_eqb (canon_map l) v && Nat.eqb (length l) (length v)
           | _, _ => false
           end
   | 12 => match dec_br (fun blob => Ok blob) b, obs with
           | Ok l, Some (VBR v) =>
-              bytes_eqb (enc_br l) b
+              ok_bytes_eqb (enc_br_go l) b
               && obs_eqb (omap VBR (dec_br (bm_of_table tbl) b)) obs
           | _, _ => false
           end
+  | 20 => match obs with Some (VSet v) => is_panic (enc_set_go v) | _ => false end
+  | 21 => match obs with Some (VRepos o) => is_panic (enc_repos_go o) | _ => false end
   | _ => false
   end.
 Definition c26_mismatches (cs : list c26case) : list N := bad_indexes c26_ok cs.
